@@ -24,10 +24,10 @@ type adapter struct {
 	name   string
 	covers []string // scanner ids "pkg|recv|func" this adapter exercises
 	valid  [][]byte
-	call   func(b []byte) bool // returns whether the input was accepted; must never panic
-	exact  int                 // >0: entry point documents a panic for any other length; only this length is supplied
-	cost   int                 // relative cost per call (1 = microseconds, 100 = tens of milliseconds)
-	budget int                 // max inputs (0 = default by cost)
+	call   func(b []byte) bool  // returns whether the input was accepted; must never panic
+	exact  int                  // >0: entry point documents a panic for any other length; only this length is supplied
+	cost   int                  // relative cost per call (1 = microseconds, 100 = tens of milliseconds)
+	budget int                  // max inputs (0 = default by cost)
 	deep   []func(n int) []byte // generators of deeply nested inputs (recursive-descent parsers); each is run in a child process,
 	// because running out of stack is a fatal error that recover() cannot catch
 }
